@@ -48,6 +48,8 @@ def alphabet(universe):
     ops += [('iand', (u[0], u[1])), ('iand', (u[2],))]
     ops += [('isub', (u[0], u[1])), ('isub', (u[2],))]
     ops += [('ixor', (u[0], u[1])), ('ixor', (u[2],))]
+    # plain sequences that repeat an element (a mathematical set does not care)
+    ops += [('ixor', (u[0], u[1], u[0])), ('isub', (u[1], u[2], u[1])), ('iand', (u[0], u[0], u[2]))]
     ops += [('or', (u[1], u[2])), ('and', (u[1], u[2])), ('sub', (u[1], u[2])),
             ('xor', (u[1], u[2]))]
     ops += [('iterrm', (u[0], u[1], u[2])), ('iterrm', (u[0],)), ('iterrm', (u[1], u[2]))]
@@ -136,10 +138,10 @@ def apply(s, model, op, cls):
         model = model + [x for i, x in enumerate(op[1])
                          if x not in model and x not in op[1][:i]]
     elif name == 'iand':
-        s &= set(op[1])
+        s &= (list(op[1]) if len(op[1]) == 3 else set(op[1]))
         model = [x for x in model if x in op[1]]
     elif name == 'isub':
-        s -= cls(op[1])
+        s -= (list(op[1]) if len(op[1]) == 3 else cls(op[1]))
         model = [x for x in model if x not in op[1]]
     elif name == 'ixor':
         s ^= list(op[1])
